@@ -131,6 +131,8 @@ class Ast:
         self.crates = {}
         for c in crates:
             self.crates[c] = json.load(open(os.path.join(facts_dir, c + ".ast.json")))["items"]
+            from . import astcanon as _ac
+            _ac.canon(self.crates[c])
         self._raw = {}
         from . import machine as _mc
         from . import flat as _fl
